@@ -77,6 +77,8 @@ def h_index_entry(ctx):
     EI = ctx.lib('ehabi.ehabiinfo')
     EXC = ctx.lib('common.exceptions')
     words = [ctx.uint('w%d' % i, 32) for i in range(2 * nent + W)]
+    if cfg.get('concrete'):
+        words = list(cfg['concrete'])       # ground instance: a table whose entries have identical raw words (a run of 8-byte functions)
     for i, v in cfg.get('fix', {}).items():
         ctx.assume(words[int(i)] & v[0] == v[1])
     data = [0] * off
@@ -97,6 +99,12 @@ def h_index_entry(ctx):
     want = ehabi.index_entry(ctx, words[2 * n], words[2 * n + 1], place, read_word, max_more=cfg.get('max_more', 2))
     if want is None:
         ctx.assume(False)      # points outside the image: ill-formed
+    for k in cfg.get('history', []):
+        # other entries of the same table fetched before, from the same object: both words are relative to the entry's own place
+        try:
+            info.get_entry(k)
+        except Exception:
+            pass
     e = info.get_entry(n)
     kind = want['kind']
     ctx.outcome(kind)
@@ -410,6 +418,11 @@ def _index_instances(tier):
             out.append(dict(little=little, sh_offset=off, entries=1, n=0, table_words=3, fix={'1': [0x80000000, 0]}))
         out.append(dict(little=little, sh_offset=8, entries=2, n=1, table_words=3, fix={'3': [0x80000000, 0]}))
         out.append(dict(little=little, sh_offset=8, entries=2, n=0, table_words=2, fix={'1': [0x80000000, 0]}))
+        # identical raw words in consecutive entries: inline compact model, cannot-unwind, and pointers into the table
+        for w1 in (0x80a8b0b0, 1, 0x18):
+            for n in (1, 2):
+                out.append(dict(little=little, sh_offset=0, entries=3, n=n, table_words=4, history=list(range(n)),
+                                concrete=[0x100, w1] * 3 + [0x8001b0b0, 0x8002b0b0, 0x8003b0b0, 0x8004b0b0]))
     return out
 
 
